@@ -265,6 +265,12 @@ def _varying_case(case, R):
         R.check(n3 > n2 and _shows(cc, kind, read(first), n3), "reset", "varying:%s:%s" % (kind, place),
                 lambda: "after reset the field shows %r; the factory was called %d time(s) in all" % (read(first), n3))
         R.check(cc.is_value_defined(owner(first), "f") is False, "reset", "varying:defined", "still user-defined after reset")
+        if place == "root":
+            # a constructor keyword is an assignment, an explicit None included: the field then holds None, user-defined
+            third = schema(key_filename=os.path.join(d, "key"), f=None)
+            R.check(third.f is None and cc.is_value_defined(third, "f") is True, "defined-iff", "ctor:none-keyword:" + kind,
+                    lambda: "schema(f=None): f shows %r, user-defined=%r" % (third.f, cc.is_value_defined(third, "f")))
+            R.check(cc.is_value_defined(third, "other") is False and third.other == 7, "defined-iff", "ctor:none-keyword:others", "another field changed")
 
 
 def run_case(case, R):
